@@ -171,34 +171,32 @@ def check(ctx, res) -> None:
     # ---- R16.3 read-before-write in content changes
     cc = idx.need_class("rope.base.change.ChangeContents")
     n163 = 0
-    # callee-level discharge: write_file itself makes sure the convention is known before encoding
+    # callee-level discharge: write_file itself makes sure the convention is known before encoding: every path to the
+    # encoder call passes a read of the resource, except through the edges "newlines is not None" (already known) and
+    # "not resource.exists()" (nothing on disk whose convention could be lost)
     wcfg = CFG(wf.node)
     callee_reads = False
     for c in calls_in(wf.node):
         if idx.resolve(wf.unit.modname, c.func) == ENC:
             en = wcfg.node_containing(c)[0]
-            reads = lambda n: n.ast is not None and n.kind in ("stmt", "test") and any(
+            read_nodes = [n.id for n in wcfg.nodes if n.ast is not None and n.kind in ("stmt", "test") and any(
                 isinstance(x.func, ast.Attribute) and x.func.attr in ("read", "read_bytes")
                 and isinstance(x.func.value, ast.Name) and x.func.value.id == rparam
-                for x in calls_in(n.ast) + ([n.ast] if isinstance(n.ast, ast.Call) else []))
-            known = any(isinstance(t, ast.Compare) and isinstance(t.left, ast.Attribute) and t.left.attr == "newlines"
-                        and isinstance(t.ops[0], ast.IsNot) and pol for t, pol in wcfg.guards(en.id))
-            # every path to the encoder either passed a read or the 'newlines is not None' edge
-            if wcfg.must_pass_through(wcfg.entry.id, en.id, reads) or known:
+                for x in calls_in(n.ast) + ([n.ast] if isinstance(n.ast, ast.Call) else []))]
+            excused = []
+            for t in wcfg.nodes:
+                if t.kind != "test":
+                    continue
+                a_ = t.ast
+                if isinstance(a_, ast.Compare) and isinstance(a_.left, ast.Attribute) and a_.left.attr == "newlines" \
+                        and isinstance(a_.left.value, ast.Name) and a_.left.value.id == rparam \
+                        and isinstance(a_.comparators[0], ast.Constant) and a_.comparators[0].value is None:
+                    lab = "false" if isinstance(a_.ops[0], ast.Is) else "true"
+                    excused += [(t.id, b2, l) for b2, l in wcfg.succ[t.id] if l == lab]
+                if isinstance(a_, ast.Call) and call_name(a_) == "exists" and isinstance(a_.func.value, ast.Name) and a_.func.value.id == rparam:
+                    excused += [(t.id, b2, l) for b2, l in wcfg.succ[t.id] if l == "false"]
+            if read_nodes and en.id not in wcfg.reachable(wcfg.entry.id, avoid_nodes=read_nodes, avoid_edges=excused):
                 callee_reads = True
-            else:
-                none_tests = [n for n in wcfg.nodes if n.kind == "test" and isinstance(n.ast, ast.Compare)
-                              and isinstance(n.ast.left, ast.Attribute) and n.ast.left.attr == "newlines"
-                              and isinstance(n.ast.ops[0], (ast.Is, ast.IsNot))
-                              and isinstance(n.ast.comparators[0], ast.Constant) and n.ast.comparators[0].value is None]
-                for t in none_tests:
-                    lab = "true" if isinstance(t.ast.ops[0], ast.Is) else "false"
-                    tgt = [b for b, l in wcfg.succ[t.id] if l == lab]
-                    other = [(t.id, b, l) for b, l in wcfg.succ[t.id] if l == lab]
-                    # the None branch must pass a read before the encoder, and the test must dominate the encoder
-                    if tgt and wcfg.must_pass_through(tgt[0], en.id, reads) and \
-                            wcfg.must_pass_through(wcfg.entry.id, en.id, lambda n, t=t: n is t):
-                        callee_reads = True
     res.analysed["R16.3_callee_level_read"] = callee_reads
     for mname in ("do", "undo"):
         m = cc.methods.get(mname)
